@@ -110,11 +110,12 @@ def spec (syn kind : String) : Option Spec := (classify syn kind).map (specOf sy
 
 /-- the classes for which the contract is a theorem.  Outside: generalized TriG `<…>` (no IRI parser consulted),
 prefixed names in every position (namespace ++ local part never validated), RDF/XML qualified names and
-`rdf:nodeID`, JSON-LD blank node properties under `produce_generalized_rdf` — each refuted by a kernel-checked
-witness in Props/C08.lean. -/
+`rdf:nodeID` — each refuted by a kernel-checked witness in Props/C08.lean.  JSON-LD blank node properties under
+`produce_generalized_rdf` are inside since /repo ea054b4 (the parser checks the label itself; pinned by
+`jsonld_rejects_invalid_bnode_labels`). -/
 def Cls.safe : Cls → Bool
-  | .bnode | .lang | .var | .iriRef | .iriAbs | .dt => true
-  | .nodeid | .iriGtrig | .pname | .pnameD | .pnameDt | .xmlns | .jsonldPred => false
+  | .bnode | .lang | .var | .iriRef | .iriAbs | .dt | .jsonldPred => true
+  | .nodeid | .iriGtrig | .pname | .pnameD | .pnameDt | .xmlns => false
 
 def safe (syn kind : String) : Bool :=
   match classify syn kind with
